@@ -362,3 +362,163 @@ def check_C13(tier, seed):
                      extra_cov={"mc_model": {"states_generated": mc["states"], "distinct": mc["distinct"], "invariants": ["OutcomeAllowed", "ErrorWhenDefinite", "NeverAsserts", "RoundsPositive"],
                                              "abstract_cases_enumerated": len(allcases), "cases_realised_as_scripts": len(sel)}})
     return rc
+
+
+# ---------------------------------------------------------------- C16
+def run_tlc_cfg(module, cfg_text, wd, name, workers=4, timeout=1800):
+    cfg = os.path.join(wd, name + ".cfg")
+    with open(cfg, "w") as f:
+        f.write(cfg_text)
+    return vlib.run_tlc(os.path.join(vlib.SPEC, "mc", module), cfg, os.path.join(wd, "meta_" + name), workers=workers, timeout=timeout, xmx="6g")
+
+
+JA_CFG = """SPECIFICATION %s
+CONSTANTS
+  Inst <- MCInst
+  MaxTok = %d
+  FillLens <- MCFills
+  CloneCopiesFlag = %s
+CONSTRAINT Bound
+INVARIANT TypeOK
+INVARIANT AtMostOnce
+INVARIANT PendingIsHighHalfOfOwnValue
+PROPERTY FreshOrPendingHalf
+CHECK_DEADLOCK FALSE
+"""
+
+
+def parse_j_edges(out):
+    import re
+    edges = []
+    for t in vlib.extract_tuples(out, "J"):
+        m = re.match(r'<<\s*"J",\s*<<<<(\d), (\d), (\d)>>, <<(\d), (\d), (\d)>>>>,\s*"(\w+)",\s*(\d+),\s*(\d+),\s*<<<<(\d), (\d), (\d)>>, <<(\d), (\d), (\d)>>>>', t)
+        if not m:
+            continue
+        g = m.groups()
+        s = tuple(int(x) for x in g[0:6])
+        t2 = tuple(int(x) for x in g[9:15])
+        edges.append((s, (g[6], int(g[7]), int(g[8])), t2))
+    return edges
+
+
+def check_C16(tier, seed):
+    import random, cover, collections
+    t0 = time.time()
+    wd = vlib.workdir("mc-C16")
+    mc = run_tlc_cfg("MC_JitterApi.tla", JA_CFG % ("Spec", 4 if tier == "quick" else 6, "FALSE"), wd, "ja", workers=8)
+    if not mc["completed"]:
+        raise ToolError("MC_JitterApi did not complete cleanly (model level):\n" + mc["out"][-3000:])
+    # the negative control: Clone copying the flag must be caught by the same invariants
+    neg = run_tlc_cfg("MC_JitterApi.tla", JA_CFG % ("Spec", 3, "TRUE"), wd, "ja_neg", workers=2)
+    if "is violated" not in neg["out"]:
+        raise ToolError("negative control failed: the clone-copies-flag mutation of JitterApi was not detected")
+    gen = run_tlc_cfg("MC_JitterApi.tla", JA_CFG % ("MCSpec", 3, "FALSE"), wd, "ja_gen", workers=1)
+    edges = parse_j_edges(gen["out"])
+    if not edges:
+        raise ToolError("no edges parsed from MC_JitterApi GEN run")
+    g = collections.defaultdict(dict)
+    init = None
+    for s, e, t in edges:
+        if init is None:
+            init = s
+        g[s].setdefault(e, t)      # the open corner (fill n<=4 with a half pending) has two targets: either is fine for routing
+    walks = cover.cover_walks(init, g, lambda s, e: True, max_walk=60)
+    rng = random.Random(seed * 31 + 16)
+    S = vlib.Sched()
+    roundsets = [1, 2, 3] if tier == "quick" else [1, 2, 3, 64, 255]
+    for wi, w in enumerate(walks):
+        for r in (roundsets if tier != "quick" else [roundsets[wi % len(roundsets)]]):
+            ncoll = sum(1 + (e[2] // 8 if e[0] == "fill_bytes" else 0) + 1 for e in w)
+            sc = corpora.jitter_script(rng, [("random", min(200000, ncoll * (4 + 3 * (r + 2)) * 2 + 100))])
+            ops = [{"op": "timer", "t": 1, "readings": [vlib.u64(x) for x in sc], "cont": corpora.CONT},
+                   {"op": "jit_new", "g": 1, "t": 1}, {"op": "set_rounds", "g": 1, "r": r}]
+            for (op, a, b) in w:
+                if op == "clone":
+                    ops.append({"op": "clone", "g": a, "to": b})
+                elif op == "fill_bytes":
+                    ops.append({"op": op, "g": a, "n": b})
+                else:
+                    ops.append({"op": op, "g": a})
+            S.case("handout cover #%d rounds=%d" % (wi, r), ops)
+    rc = trace_check("C16", tier, seed, S, "Trace_Jitter.tla", "Trace_Jitter.cfg", weight=jit_weight,
+                     rule="TLC explores the hand-out machine JitterApi (collections as tokens, <=3 instances incl. clone of clone, all interleavings of next_u32/next_u64/fill_bytes(n)/clone) and checks AtMostOnce, PendingIsHighHalfOfOwnValue and FreshOrPendingHalf; a negative control (Clone copying the flag) must fail; every edge of the projected graph (alive, pending flags) is executed on real JitterRng instances with their own scripted timer cursors, and Trace_Jitter, which executes the same plans on concrete pools, validates values, flags and readings consumed. distinct = distinct recorded events",
+                     assumptions=JIT_ASSUME + ["fill_bytes(n in 1..4) with a half pending is left open between C05's and C16's wording: both plans are admitted"],
+                     extra_cov={"mc_model": {"states_generated": mc["states"], "distinct": mc["distinct"], "max_collections": 4 if tier == "quick" else 6,
+                                             "invariants": ["TypeOK", "AtMostOnce", "PendingIsHighHalfOfOwnValue", "FreshOrPendingHalf"],
+                                             "negative_control": "CloneCopiesFlag=TRUE violates PendingIsHighHalfOfOwnValue"},
+                                "cover": {"projected_nodes": len(g), "projected_edges": sum(len(v) for v in g.values()), "walks": len(walks)},
+                                "exhaustive": True, "exhaustive_scope": "abstract hand-out machine with <=3 instances and <=4 (quick) / 6 (thorough) collections"})
+    return rc
+
+
+# ---------------------------------------------------------------- C15
+def check_C15(tier, seed):
+    import re
+    t0 = time.time()
+    S = corpora.c15_schedule(seed, tier)
+    binp = vlib.build_harness()
+    wd = vlib.workdir("run-C15")
+    sp, tp = os.path.join(wd, "sched.ndjson"), os.path.join(wd, "trace.ndjson")
+    vlib.write_ndjson(sp, S.lines())
+    vlib.drive(binp, sp, tp)
+    events = vlib.read_ndjson(tp)
+    if sum(1 for e in events if "pool" in (e.get("obs") or {})) == 0:
+        raise ToolError("no hook observations in the extraction trace: the cfg(rngs_verif) accessors are not compiled in")
+    r = vlib.run_tlc(os.path.join(vlib.SPEC, "alg", "ALG_Pool.tla"), os.path.join(vlib.SPEC, "alg", "ALG_Pool.cfg"),
+                     os.path.join(wd, "meta"), env={"TRACE": tp}, timeout=1500, xmx="4g")
+    res = vlib.extract_tuples(r["out"], "RESULT")
+    if not res:
+        raise ToolError("ALG_Pool produced no RESULT:\n" + r["out"][-3000:])
+    items = re.findall(r'<<"(lp|lt|st)", "([a-z-]+)", (\d+), <<(\d+), (\d+), (\d+), (\d+)>>, (\d+)>>', res[-1])
+    rot = int(re.search(r'(\d+)\s*>>\s*$', res[-1]).group(1))
+    names = {"lp": "pool -> lfsr(pool, fixed time)", "lt": "time -> lfsr(fixed pool, time)", "st": "pool -> stir(pool)"}
+    nviol, undecided, ranks = 0, [], {}
+    C, P0 = 0x0123456789ABCDEF, 0xDEADBEEF0BADF00D
+    for kind, status, rank, k0, k1, k2, k3, ntr in items:
+        ranks[names[kind]] = {"status": status, "rank": int(rank), "affinity_triples": int(ntr)}
+        if status == "incomplete":
+            raise ToolError("extraction incomplete for map " + kind)
+        if status == "not-affine":
+            undecided.append(kind)
+            continue
+        if int(rank) < 64:
+            # certificate: kernel vector k with f(k) = f(0); replay the collision on the real code
+            k = vlib.from_limbs([int(k0), int(k1), int(k2), int(k3)])
+            ops = [{"op": "timer", "t": 1, "readings": [vlib.u64(x) for x in ([C, C + 1] * 2 if kind != "lt" else [0, 1, k, k + 1])], "cont": [vlib.u64(1)]},
+                   {"op": "jit_new", "g": 1, "t": 1}]
+            for w, v in ((0, 0), (1, k)):
+                if kind == "st":
+                    ops += [{"op": "set_pool", "g": 1, "pool": vlib.u64(v)}, {"op": "stir", "g": 1, "tag": ["confirm", kind, w]}]
+                elif kind == "lp":
+                    ops += [{"op": "set_pool", "g": 1, "pool": vlib.u64(v)}, {"op": "timer_stats", "g": 1, "var": False, "tag": ["confirm", kind, w]}]
+                else:
+                    ops += [{"op": "set_pool", "g": 1, "pool": vlib.u64(P0)}, {"op": "timer_stats", "g": 1, "var": False, "tag": ["confirm", kind, w]}]
+            cs, ct = os.path.join(wd, "c.ndjson"), os.path.join(wd, "ct.ndjson")
+            vlib.write_ndjson(cs, [{"op": "reset"}] + ops)
+            vlib.drive(binp, cs, ct)
+            rc = vlib.run_tlc(os.path.join(vlib.SPEC, "alg", "ALG_Confirm.tla"), os.path.join(vlib.SPEC, "alg", "ALG_Confirm.cfg"),
+                              os.path.join(wd, "metac"), env={"TRACE": ct}, timeout=300)
+            if '<<"COLLISION", TRUE>>' in rc["out"]:
+                nviol += 1
+                path = vlib.write_replay("C15", {"property": "C15", "case": "collision of " + names[kind], "signature": "collision|" + kind,
+                                                 "schedule": [{"op": "reset"}] + ops, "kernel_vector": "0x%016x" % k, "rank": int(rank),
+                                                 "note": "the two tagged events leave the same pool: two different inputs are merged"})
+                print("VIOLATION property=C15 replay=%s" % path)
+                print("  %s has GF(2) rank %s < 64; inputs 0 and 0x%016x give the same pool on the real code" % (names[kind], rank, k))
+            else:
+                raise ToolError("rank-deficient map %s but the collision did not reproduce on the code:\n%s" % (kind, rc["out"][-1500:]))
+    if rot != 64:
+        raise ToolError("specification-level rotl7 is not a permutation?!")
+    cov = {"states": max(1, r["states"]), "transitions": max(1, r["states"] - 1), "traces_validated_against_impl": 1,
+           "samples": [e for e in events if e.get("tag") in (["lp", 3], ["lt", 63], ["st", 0])][:3],
+           "maps": ranks, "rotl7_spec_rank": rot, "undecided_not_affine": undecided,
+           "events_recorded": len(events), "exhaustive": not undecided,
+           "exhaustive_scope": "rank 64 of the linear part of an affine map over GF(2)^64 decides bijectivity for all 2^64 inputs; affinity of the code's maps is sampled on random triples (a non-affine map is reported as undecided here and is C12's business)",
+           "rule": "basis images f(e_i), f(0) of the three pool maps recorded from the real code through the hook; affinity triples; GF(2) rank with kernel-vector extraction inside TLC; a kernel vector is replayed on the code as a collision",
+           "checker_cmd": "tlc -config spec/alg/ALG_Pool.cfg spec/alg/ALG_Pool.tla (TRACE=<extraction trace>)"}
+    if undecided:
+        print("NOTE property=C15 undecided for %s: the code's map is not affine on the sampled triples (see C12)" % undecided)
+    vlib.write_evidence("C15", tier, seed, "model_checking", cov, JIT_ASSUME + ["affinity of the code's maps is sampled, not proved"], time.time() - t0, nviol)
+    import shutil
+    shutil.rmtree(wd, ignore_errors=True)
+    return 1 if nviol else 0
